@@ -419,3 +419,154 @@ func verifEarlyStop(iterate func(yield func() bool), stopAfter int) (msg string)
 	}
 	return ""
 }
+
+// Round trips of EVERY REPRESENTATION of a value (C17: "the JSON/YAML encoding of any value
+// decodes to an equal value"): the same abstract set / map is reached by different routes
+// (constructed directly, shrunk from a superset by Delete, by Difference, by a transaction, by
+// Union with the empty set, decoded from JSON or YAML) - which leave different representations
+// behind (no tree, an empty tree, a singleton, a tree) - over several element types, and each
+// is encoded and decoded alone and as a struct field.
+func verifSetReps[T any](universe []T, mask int) (reps map[string]Set[T]) {
+	var members, others []T
+	for i, v := range universe {
+		if mask&(1<<i) != 0 {
+			members = append(members, v)
+		} else {
+			others = append(others, v)
+		}
+	}
+	r0 := NewSet(members...)
+	reps = map[string]Set[T]{"direct": r0}
+	shrunk := NewSet(universe...)
+	for _, v := range others {
+		shrunk = shrunk.Delete(v)
+	}
+	reps["superset-minus-deletes"] = shrunk
+	reps["superset-difference"] = NewSet(universe...).Difference(NewSet(others...))
+	reps["difference-of-itself-union-direct"] = r0.Difference(r0).Union(r0)
+	reps["empty-union-direct"] = Set[T]{}.Union(r0)
+	reps["direct-union-empty"] = r0.Union(Set[T]{})
+	grown := Set[T]{}
+	for _, v := range members {
+		grown = grown.Set(v)
+	}
+	reps["grown-by-set"] = grown
+	if js, err := json.Marshal(r0); err == nil {
+		var d Set[T]
+		if json.Unmarshal(js, &d) == nil {
+			reps["decoded-from-json"] = d
+		}
+	}
+	if ys, err := yaml.Marshal(r0); err == nil {
+		var d Set[T]
+		if yaml.Unmarshal(ys, &d) == nil {
+			reps["decoded-from-yaml"] = d
+		}
+	}
+	return
+}
+
+func verifSetRoundTrips[T any](t *testing.T, tname string, universe []T) int {
+	type holder struct {
+		A int    `json:"a" yaml:"a"`
+		S Set[T] `json:"s" yaml:"s"`
+		B string `json:"b" yaml:"b"`
+	}
+	cases := 0
+	for mask := 0; mask < 1<<len(universe); mask++ {
+		reps := verifSetReps(universe, mask)
+		if len(reps) < 9 {
+			t.Fatalf("VERIF-FAIL: roundtrip-reps: Set[%s] subset %b: direct set does not encode/decode at all", tname, mask)
+		}
+		want := reps["direct"]
+		for name, s := range reps {
+			if !s.Equal(want) || !want.Equal(s) || s.Len() != want.Len() {
+				t.Fatalf("VERIF-FAIL: roundtrip-reps: Set[%s] subset %b: representation %q is not Equal to the direct one", tname, mask, name)
+			}
+			js, err := json.Marshal(s)
+			var d1 Set[T]
+			if err != nil || json.Unmarshal(js, &d1) != nil || !d1.Equal(want) || d1.Len() != want.Len() {
+				t.Fatalf("VERIF-FAIL: roundtrip-reps: Set[%s] subset %b representation %q: JSON %s does not decode to an equal set (%v)", tname, mask, name, js, err)
+			}
+			ys, err := yaml.Marshal(s)
+			var d2 Set[T]
+			if err != nil || yaml.Unmarshal(ys, &d2) != nil || !d2.Equal(want) || d2.Len() != want.Len() {
+				t.Fatalf("VERIF-FAIL: roundtrip-reps: Set[%s] subset %b representation %q: YAML %q does not decode to an equal set (%v)", tname, mask, name, ys, err)
+			}
+			hj, err := json.Marshal(holder{A: 1, S: s, B: "x"})
+			var h1 holder
+			if err != nil || json.Unmarshal(hj, &h1) != nil || !h1.S.Equal(want) || h1.A != 1 || h1.B != "x" {
+				t.Fatalf("VERIF-FAIL: roundtrip-reps: Set[%s] subset %b representation %q as a struct field: JSON %s (%v)", tname, mask, name, hj, err)
+			}
+			hy, err := yaml.Marshal(holder{A: 1, S: s, B: "x"})
+			var h2 holder
+			if err != nil || yaml.Unmarshal(hy, &h2) != nil || !h2.S.Equal(want) || h2.A != 1 || h2.B != "x" {
+				t.Fatalf("VERIF-FAIL: roundtrip-reps: Set[%s] subset %b representation %q as a struct field: YAML %q (%v)", tname, mask, name, hy, err)
+			}
+			cases++
+		}
+	}
+	return cases
+}
+
+func verifMapRoundTrips[K comparable](t *testing.T, tname string, universe []K) int {
+	cases := 0
+	for mask := 0; mask < 1<<len(universe); mask++ {
+		gm := map[K]int{}
+		var direct Map[K, int]
+		super := Map[K, int]{}
+		for i, k := range universe {
+			super = super.Set(k, 100+i)
+		}
+		shrunk := super
+		txn := super.Txn()
+		for i, k := range universe {
+			if mask&(1<<i) != 0 {
+				gm[k] = i + 1
+				direct = direct.Set(k, i+1)
+				shrunk = shrunk.Set(k, i+1)
+				txn.Set(k, i+1)
+			} else {
+				shrunk = shrunk.Delete(k)
+				txn.Delete(k)
+			}
+		}
+		reps := map[string]Map[K, int]{"direct": direct, "superset-minus-deletes": shrunk, "transaction": txn.Commit(), "from-go-map": FromMap(Map[K, int]{}, gm), "from-go-map-over-direct": FromMap(direct, gm)}
+		for name, m := range reps {
+			if !m.SlowEqual(direct) || !m.EqualKeys(direct) || m.Len() != len(gm) {
+				t.Fatalf("VERIF-FAIL: roundtrip-reps: Map[%s] subset %b: representation %q differs from the direct one", tname, mask, name)
+			}
+			js, err := json.Marshal(m)
+			var d1 Map[K, int]
+			if err != nil || json.Unmarshal(js, &d1) != nil || !d1.SlowEqual(direct) || d1.Len() != len(gm) {
+				t.Fatalf("VERIF-FAIL: roundtrip-reps: Map[%s] subset %b representation %q: JSON %s does not decode to an equal map (%v)", tname, mask, name, js, err)
+			}
+			ys, err := yaml.Marshal(m)
+			var d2 Map[K, int]
+			if err != nil || yaml.Unmarshal(ys, &d2) != nil || !d2.SlowEqual(direct) || d2.Len() != len(gm) {
+				t.Fatalf("VERIF-FAIL: roundtrip-reps: Map[%s] subset %b representation %q: YAML %q does not decode to an equal map (%v)", tname, mask, name, ys, err)
+			}
+			for k, v := range gm {
+				if g, ok := d1.Get(k); !ok || g != v {
+					t.Fatalf("VERIF-FAIL: roundtrip-reps: Map[%s] subset %b representation %q: JSON %s loses key %v", tname, mask, name, js, k)
+				}
+			}
+			cases++
+		}
+	}
+	return cases
+}
+
+func TestVerifProbe_RoundTripRepresentations(t *testing.T) {
+	cases := 0
+	cases += verifSetRoundTrips(t, "string", []string{"", "a", "ab", "b\x00"})
+	cases += verifSetRoundTrips(t, "byte", []byte{0x00, 'a', 0x80, 0xff})
+	cases += verifSetRoundTrips(t, "uint64", []uint64{0, 1, 256, 1 << 63})
+	cases += verifSetRoundTrips(t, "int32", []int32{-1, 0, 1, 1 << 30})
+	cases += verifSetRoundTrips(t, "bool", []bool{false, true})
+	cases += verifSetRoundTrips(t, "rune", []rune{0, 'a', 0x20ac, 0x10ffff})
+	cases += verifMapRoundTrips(t, "string", []string{"", "a", "ab", "b\x00"})
+	cases += verifMapRoundTrips(t, "uint64", []uint64{0, 1, 256, 1 << 63})
+	cases += verifMapRoundTrips(t, "byte", []byte{0x00, 'a', 0x80, 0xff})
+	fmt.Printf("VERIF-CASES=%d\n", cases)
+}
